@@ -588,6 +588,10 @@ impl<T: GuestMemory + ?Sized> Bytes<GuestAddress> for T {
     type E = Error;
 
     fn write(&self, buf: &[u8], addr: GuestAddress) -> Result<usize> {
+        if buf.is_empty() {
+            return Ok(0);
+        }
+
         self.try_access(
             buf.len(),
             addr,
@@ -598,6 +602,10 @@ impl<T: GuestMemory + ?Sized> Bytes<GuestAddress> for T {
     }
 
     fn read(&self, buf: &mut [u8], addr: GuestAddress) -> Result<usize> {
+        if buf.is_empty() {
+            return Ok(0);
+        }
+
         self.try_access(
             buf.len(),
             addr,
